@@ -1230,30 +1230,30 @@ func (*parser).failAt
   ensures [C19] p.maxFailPos.offset >= old(p.maxFailPos.offset)
 
 func formatFriendlyError
-  props C19 C01
+  props C19 C01 C10
   requires [C19] 0 <= pos.offset && pos.offset <= len(input) && pos.col < 1<<40
   ensures result != nil
 
 func fmtErr
-  props C19 C01
+  props C19 C01 C10
   requires pos.col < 1<<40
   ensures result != nil
   ghost at precall 2 fmt.Sprintf: ghostAssert(pos.col >= 1 ==> len(arg1) == pos.col); ghostAssert(pos.col < 1 ==> len(arg1) == 1)
 
 func getLineAtBytes
-  props C19 C01
+  props C19 C01 C10
   ensures [C19] 1 <= line && line <= strLineCount(string(input)) && len(strLine(string(input), line-1)) <= 60 ==> result == strLine(string(input), line-1)
   ensures [C19] 1 <= line && line <= strLineCount(string(input)) && len(strLine(string(input), line-1)) > 60 ==> len(result) == 60
 
 func getPrevNonSpaceChar
-  props C19 C01
+  props C19 C01 C10
   requires 0 <= offset && offset <= len(input)
   loop 1
     invariant -1 <= i && i < offset
     decreases i + 1
 
 func findUnclosedBracketBytes
-  props C19 C01
+  props C19 C01 C10
 
 func cloneStrings
   props C17
